@@ -1,6 +1,6 @@
 (* Runs the extracted C04 model (coq/Lang/Mini*.v) on core programs given as s-expressions.
    Input lines:
-     P <sexp of a prog>     answer:  B <wfb> <check diags> <check_patched diags>
+     P <sexp of a prog>     answer:  B <wfb> <check diags> <check_patched diags> <quirk_free> <shadow_free>
                              then one line per mutant of every fault class (Coq's MiniMutate.mutants):
                                      M <fault> <index> <wfb> <check diags> <check_patched diags> <sexp of the mutant>
                              then    E
@@ -212,10 +212,10 @@ let () =
       (if String.length line > 2 then
          let body = String.sub line 2 (String.length line - 2) in
          match line.[0] with
-         | 'C' -> let p = d_prog (parse_sx body) in Printf.printf "B %s\n" (verdicts p)
+         | 'C' -> let p = d_prog (parse_sx body) in Printf.printf "B %s %d %d\n" (verdicts p) (if quirk_free p then 1 else 0) (if shadow_free p then 1 else 0)
          | 'P' ->
            let p = d_prog (parse_sx body) in
-           Printf.printf "B %s\n" (verdicts p);
+           Printf.printf "B %s %d %d\n" (verdicts p) (if quirk_free p then 1 else 0) (if shadow_free p then 1 else 0);
            List.iter (fun fc ->
                List.iteri (fun i m -> Printf.printf "M %s %d %s %s\n" (fault_name fc) i (verdicts m) (show_sx (e_prog m)))
                  (mutants fc p)) all_faults;
